@@ -7,6 +7,7 @@ package sim
 // ---- C17: the JSON single-model runner ----
 
 //@ func uniformParameters(params, n) returns (res)
+//@   locals res, i, j
 //@   ndmodel locations
 //@   requires n >= 0
 //@   assigns nothing
@@ -18,12 +19,14 @@ package sim
 //@   loop 1 invariant forall(p, 0, i, forall(c, 0, n, res.elem(p, c) == params[p])) && forall(c, 0, j, res.elem(i, c) == params[i])
 
 //@ func (modelValues).Find(vals, name, defaultValue) returns (v, msg)
+//@   locals v
 //@   canary [C17.canary-find] v == defaultValue
 //@   assigns nothing
 //@   ensures [C17.find-value] (exists(k, 0, len(vals), vals[k].Name == name && v == vals[k].Value && forall(q, 0, k, vals[q].Name != name))) || (forall(k, 0, len(vals), vals[k].Name != name) && v == defaultValue)
 //@   loop 0 invariant -1 <= rangeindex && rangeindex < len(vals) && forall(q, 0, rangeindex + 1, vals[q].Name != name)
 
 //@ func (modelInputs).Find(vals, name) returns (r)
+//@   locals v
 //@   assigns nothing
 //@   ensures [C17.find-input] (forall(k, 0, len(vals), vals[k].Name != name) && r == nil) || exists(k, 0, len(vals), vals[k].Name == name && r == vals[k].Values && forall(q, 0, k, vals[q].Name != name))
 //@   loop 0 invariant -1 <= rangeindex && rangeindex < len(vals) && forall(q, 0, rangeindex + 1, vals[q].Name != name)
@@ -47,6 +50,7 @@ package sim
 //@   ensures s != nil && s.rank == 2 && s.dim(0) == n && s.dim(1) >= x.g_nStates && s.root == s.ref && injective(s)
 
 //@ func (singleModel).Initialise(m) returns (err, model, inputs, states, warnings)
+//@   locals warnings, factory, model, desc, params, i, p, paramValue, msg, states, inputs, i, p, thisInput
 //@   ndmodel locations
 //@   safety C17
 //@   assigns nothing
@@ -74,12 +78,14 @@ package sim
 //@   assigns nothing
 
 //@ func RunSingleModelJSON(r, w, splitOutputs)
+//@   locals runLogs, results, description, log, modelDescription, decoder, err, err, model, inputs, states, warnings, w, outputs
 //@   ndmodel locations
 //@   safety C17
 //@   assigns nothing
 //@   loop 0 invariant -1 <= rangeindex && rangeindex < len(warnings)
 
 //@ func encodeResults(w, runLogs, results, description, splitOutputs)
+//@   locals overall, outputArray, outputMap, length, i, output, singleOutput, stateArray, stateMap, i, state, singleState, encoder, err
 //@   ndmodel locations
 //@   safety C17
 //@   requires implies(results.Outputs != nil, results.Outputs.rank == 3 && results.Outputs.dim(0) == 1 && results.Outputs.dim(1) >= len(description.Outputs) && results.Outputs.dim(2) >= 0)
